@@ -70,6 +70,12 @@ void bn_mod_inv_sim(bn_t *c, const bn_t *a, const bn_t b, int n) {
 
 	bn_null(u);
 
+	if (n <= 0) {
+		/* Nothing to invert. */
+		RLC_FREE(t);
+		return;
+	}
+
 	if (t != NULL) {
 		for (i = 0; i < n; i++) {
 			bn_null(t[i]);
